@@ -1066,3 +1066,306 @@ class StoreRoles:
             elif isinstance(n, ast.AugAssign) and isinstance(n.op, ast.Add) and self.is_queue(n.target, fn):
                 out.append(n)
         return sorted(out, key=lambda n: (n.lineno, n.col_offset))
+
+
+# ======================================================================================================================
+# fifth part: values that cross a function boundary of the PACKAGE.  A method of the store may keep only the step that
+# needs `self` and hand the text - and the compiled regular expressions it reads from self - to a function of the same
+# or of another (private) module of the package.  A `Frame` is a function in one calling context; a regular expression
+# is then whatever the receiver of `.search/.sub/..` evaluates to: a module / class constant, a local bound to one, a
+# parameter (-> the argument of the call the frame was entered through, evaluated in the caller's frame; else the
+# default), `p.NAME` where p is a parameter (-> `<argument>.NAME` in the caller), a name imported from a module of the
+# package.  Nothing here knows a name of the analysed library.
+# ======================================================================================================================
+
+REGEX_METHODS = ("search", "match", "fullmatch", "finditer", "findall", "sub", "subn", "split")
+
+
+def _abs_import(mod: Module, node: ast.ImportFrom) -> str:
+    if not node.level:
+        return node.module or ""
+    parts = mod.name.split(".")
+    if not mod.rel.endswith("__init__.py"):
+        parts = parts[:-1]
+    if node.level > 1:
+        parts = parts[: len(parts) - (node.level - 1)]
+    return ".".join(parts + ([node.module] if node.module else []))
+
+
+def _has_module(repo, name: str) -> bool:
+    return bool(name) and any(n == name for n in repo.modules)  # (iterating does not build the modules of a view)
+
+
+def imported_module(repo, mod: Module, e: ast.AST) -> Optional[Module]:
+    """the module of the package an expression denotes: a name bound by `from . import m [as a]` / `import a.b.m as a`,
+    or the dotted path of a plain `import a.b.m`"""
+    dotted = norm(e) if isinstance(e, (ast.Name, ast.Attribute)) else None
+    if dotted is None:
+        return None
+    for n in ast.walk(mod.tree):
+        if isinstance(n, ast.ImportFrom) and isinstance(e, ast.Name):
+            base = _abs_import(mod, n)
+            for a in n.names:
+                if (a.asname or a.name) == e.id and _has_module(repo, (base + "." if base else "") + a.name):
+                    return repo.modules[(base + "." if base else "") + a.name]
+        elif isinstance(n, ast.Import):
+            for a in n.names:
+                if a.asname and isinstance(e, ast.Name) and a.asname == e.id and _has_module(repo, a.name):
+                    return repo.modules[a.name]
+                if not a.asname and a.name == dotted and _has_module(repo, a.name):
+                    return repo.modules[a.name]
+    return None
+
+
+def imported_object(repo, mod: Module, name: str, depth: int = 3) -> Optional[tuple[Module, ast.AST]]:
+    """(module of the package, its top-level def or the value expression of its top-level assignment) for a name the
+    module imports with `from <module of the package> import X [as name]`; re-exports are followed"""
+    if depth <= 0:
+        return None
+    for n in ast.walk(mod.tree):
+        if not isinstance(n, ast.ImportFrom):
+            continue
+        for a in n.names:
+            if (a.asname or a.name) != name:
+                continue
+            src = _abs_import(mod, n)
+            if not _has_module(repo, src):
+                continue
+            m2 = repo.modules[src]
+            d = m2.defs.get(a.name)
+            if d is not None:
+                return m2, d
+            v = StrEnv._assigns(m2.tree.body).get(a.name)
+            if v is not None:
+                return m2, v
+            r = imported_object(repo, m2, a.name, depth - 1)
+            if r is not None:
+                return r
+    return None
+
+
+def class_of(mod: Module, fn: ast.AST) -> Optional[str]:
+    """the class whose body holds fn (a method), else None"""
+    p = mod.parent.get(id(fn))
+    return mod.scope.get(id(p)) if isinstance(p, ast.ClassDef) else None
+
+
+class Frame:
+    """a function of the package in one calling context: entered through `call` from the frame `parent` (both None for
+    the function an analysis starts in); `bound`: the call is `recv.m(..)`, the first parameter is the receiver"""
+
+    __slots__ = ("mod", "fn", "call", "parent", "bound")
+
+    def __init__(self, mod: Module, fn: ast.AST, call: Optional[ast.Call] = None, parent: Optional["Frame"] = None, bound: bool = False):
+        self.mod, self.fn, self.call, self.parent, self.bound = mod, fn, call, parent, bound
+
+    def depth(self) -> int:
+        return 0 if self.parent is None else 1 + self.parent.depth()
+
+    def active(self, fn: ast.AST) -> bool:
+        return self.fn is fn or (self.parent is not None and self.parent.active(fn))
+
+    def chain(self) -> str:
+        return self.mod.qual_of(self.fn) if self.parent is None else "%s -> %s" % (self.parent.chain(), self.mod.qual_of(self.fn))
+
+    def is_param(self, name: str) -> bool:
+        """a parameter that still holds what the caller passed (never re-bound in the body)"""
+        return name in _all_params(self.fn) and name not in local_defs(self.fn)
+
+    def argument(self, name: str) -> Optional[ast.expr]:
+        if self.call is None or self.parent is None:
+            return None
+        return argument_for(self.fn, self.call, name, self.bound)
+
+    def default(self, name: str) -> Optional[ast.expr]:
+        a = self.fn.args  # type: ignore[attr-defined]
+        pos = a.posonlyargs + a.args
+        for p, d in zip(pos[len(pos) - len(a.defaults):], a.defaults):
+            if p.arg == name:
+                return d
+        for p, d in zip(a.kwonlyargs, a.kw_defaults):
+            if p.arg == name:
+                return d
+        return None
+
+
+class PackageFlow:
+    """calls and regular expressions followed across the functions of the package (see the head of this part)"""
+
+    MAX_DEPTH = 6
+
+    def __init__(self, repo, home: Module):
+        self.repo, self.home = repo, home
+
+    # -- calls
+    def enter(self, call: ast.Call, fr: Frame) -> Optional[Frame]:
+        """the frame a call opens, when it can only run one function of the package: a method of the same class through
+        self / cls, a function of the module, a function imported from - or called through - another module of the package"""
+        if fr.depth() >= self.MAX_DEPTH:
+            return None
+        host = self._host(fr, call)
+        r = callee_of(call, host, fr.mod)
+        tgt: Optional[tuple[Module, ast.AST, bool]] = (fr.mod, r[0], r[1]) if r is not None else None
+        f = call.func
+        shadow = set(local_defs(host)) | _all_params(host)
+        if tgt is None and isinstance(f, ast.Name) and f.id not in shadow:
+            o = imported_object(self.repo, fr.mod, f.id)
+            if o is not None and isinstance(o[1], (ast.FunctionDef, ast.AsyncFunctionDef)):
+                tgt = (o[0], o[1], False)
+        if tgt is None and isinstance(f, ast.Attribute):
+            root = f.value
+            while isinstance(root, ast.Attribute):
+                root = root.value
+            if isinstance(root, ast.Name) and root.id not in shadow:
+                m2 = imported_module(self.repo, fr.mod, f.value)
+                d = m2.defs.get(f.attr) if m2 is not None else None
+                if m2 is not None and d is None:
+                    o = imported_object(self.repo, m2, f.attr)
+                    if o is not None:
+                        m2, d = o
+                if m2 is not None and isinstance(d, (ast.FunctionDef, ast.AsyncFunctionDef)):
+                    tgt = (m2, d, False)
+        if tgt is None or fr.active(tgt[1]):
+            return None
+        if any(norm(d_) in ("property", "functools.cached_property", "cached_property") for d_ in tgt[1].decorator_list):  # type: ignore[attr-defined]
+            return None
+        return Frame(tgt[0], tgt[1], call, fr, tgt[2])
+
+    @staticmethod
+    def _host(fr: Frame, node: ast.AST) -> ast.AST:
+        """the def of the frame (a lambda / nested def inside it reads the names of the def)"""
+        return fr.fn
+
+    # -- regular expressions
+    def _named_pattern(self, mod: Module, cls: Optional[str], e: ast.AST) -> Optional[tuple[str, int]]:
+        if mod is self.home:
+            return pattern_of_receiver(mod, e)
+        nm = e.id if isinstance(e, ast.Name) else (e.attr if isinstance(e, ast.Attribute) else None)
+        if nm is None:
+            return None
+        scopes: list[tuple[Optional[str], list[ast.stmt]]] = [(None, mod.tree.body)] + [(q, n.body) for q, n in mod.defs.items() if isinstance(n, ast.ClassDef)]
+        for c, body in scopes:
+            v = StrEnv._assigns(body).get(nm)
+            if v is not None and is_re_compile(v):
+                return self._compiled(mod, c, v)  # type: ignore[arg-type]
+        return None
+
+    @staticmethod
+    def _compiled(mod: Module, cls: Optional[str], call: ast.Call) -> tuple[str, int]:
+        pat = StrEnv(mod, cls).value(call.args[0])
+        if not isinstance(pat, (str, bytes)):
+            raise AnalysisError("%s: pattern of re.compile is not a foldable constant (%s)" % (mod.rel, norm(call.args[0])[:60]))
+        return (pat if isinstance(pat, str) else pat.decode("latin-1")), re_flags(call)
+
+    def pattern(self, e: ast.AST, fr: Frame, depth: int = 8) -> Optional[tuple[str, int]]:
+        """(pattern text, flags) of the compiled regular expression `e` evaluates to in the frame, None when not known"""
+        if depth <= 0:
+            return None
+        e = resolve_local(e, fr.fn)
+        cls = class_of(fr.mod, fr.fn)
+        if is_re_compile(e):
+            return self._compiled(fr.mod, cls, e)  # type: ignore[arg-type]
+        if isinstance(e, ast.Name) and fr.is_param(e.id):
+            a = fr.argument(e.id)
+            if a is not None and fr.parent is not None:
+                return self.pattern(a, fr.parent, depth - 1)
+            # not passed by the call the frame was entered through: the default (a frame nobody entered has unknown callers)
+            spread = fr.call is None or any(isinstance(x, ast.Starred) for x in fr.call.args) or any(k.arg is None for k in fr.call.keywords)
+            d = None if spread else fr.default(e.id)
+            if d is not None and not (isinstance(d, ast.Constant) and d.value is None):
+                return self._static(d, fr.mod, None)
+            return None
+        if isinstance(e, ast.Attribute) and isinstance(e.value, ast.Name) and fr.is_param(e.value.id) and fr.parent is not None:
+            a = fr.argument(e.value.id)
+            if a is None and fr.bound and params_of(fr.fn)[:1] == [e.value.id] and isinstance(fr.call.func, ast.Attribute):  # type: ignore[union-attr]
+                a = fr.call.func.value  # type: ignore[union-attr]  # the receiver of the call
+            if a is not None:
+                return self.pattern(ast.copy_location(ast.Attribute(value=a, attr=e.attr, ctx=ast.Load()), e), fr.parent, depth - 1)
+        return self._static(e, fr.mod, cls)
+
+    def _static(self, e: ast.AST, mod: Module, cls: Optional[str]) -> Optional[tuple[str, int]]:
+        if is_re_compile(e):
+            return self._compiled(mod, cls, e)  # type: ignore[arg-type]
+        p = self._named_pattern(mod, cls, e)
+        if p is not None:
+            return p
+        if isinstance(e, ast.Name):
+            o = imported_object(self.repo, mod, e.id)
+            if o is not None and is_re_compile(o[1]):
+                return self._compiled(o[0], None, o[1])  # type: ignore[arg-type]
+        if isinstance(e, ast.Attribute):
+            m2 = imported_module(self.repo, mod, e.value)
+            if m2 is not None:
+                return self._named_pattern(m2, None, ast.Name(id=e.attr, ctx=ast.Load()))
+        return None
+
+    def regex_use(self, call: ast.AST, fr: Frame) -> Optional[tuple[str, int, Optional[ast.expr]]]:
+        """(pattern, flags, the text it is applied to) when the call applies a regular expression whose text is known:
+        `<compiled>.search(text, ..)` / `.sub(repl, text)` or the function form `re.search(pattern, text)` / `re.sub(pattern, repl, text)`"""
+        if not (isinstance(call, ast.Call) and isinstance(call.func, ast.Attribute) and call.func.attr in REGEX_METHODS):
+            return None
+        recv, attr = call.func.value, call.func.attr
+        kw = {k.arg: k.value for k in call.keywords if k.arg}
+        shift = 1 if attr in ("sub", "subn") else 0
+        if isinstance(recv, ast.Name) and recv.id == "re" and "re" not in local_defs(fr.fn) and "re" not in _all_params(fr.fn):
+            pe = call.args[0] if call.args else kw.get("pattern")
+            if pe is None:
+                return None
+            pv = StrEnv(fr.mod, class_of(fr.mod, fr.fn)).value(resolve_local(pe, fr.fn))  # type: ignore[arg-type]
+            p = (pv, 0) if isinstance(pv, str) else self.pattern(pe, fr)
+            if p is None:
+                return None
+            fl = kw.get("flags")
+            flags = p[1]
+            if fl is not None:
+                flags |= re_flags(ast.Call(func=ast.Name(id="re"), args=[pe, fl], keywords=[]))
+            subject = call.args[1 + shift] if len(call.args) > 1 + shift else kw.get("string")
+            return p[0], flags, subject
+        p = self.pattern(recv, fr)
+        if p is None:
+            return None
+        subject = call.args[shift] if len(call.args) > shift else kw.get("string")
+        return p[0], p[1], subject
+
+    # -- where a text comes from
+    def slice_calls(self, e: ast.AST, fr: Frame, _seen: Optional[set[int]] = None) -> Iterator[tuple[ast.Call, Frame]]:
+        """every call the value of `e` is computed from, with the frame it is made in: the backward slice of e in the
+        function of the frame, continued - where it reads a parameter - in the caller's frame at the argument passed"""
+        seen = _seen if _seen is not None else set()
+        for x in backward_slice(e, fr.fn, fr.mod):
+            if id(x) in seen:
+                continue
+            seen.add(id(x))
+            if isinstance(x, ast.Call):
+                host = next((p for p in fr.mod.parents(x) if isinstance(p, (ast.FunctionDef, ast.AsyncFunctionDef))), None)
+                yield x, (fr if host is fr.fn or host is None else Frame(fr.mod, host))
+            elif isinstance(x, ast.Name) and isinstance(x.ctx, ast.Load) and fr.parent is not None and x.id in _all_params(fr.fn):
+                a = fr.argument(x.id)
+                if a is not None:
+                    yield from self.slice_calls(a, fr.parent, seen)
+
+    def root_names(self, e: ast.AST, fr: Frame, _seen: Optional[set[int]] = None) -> Iterator[tuple[ast.Name, Frame]]:
+        """the names read in the function an analysis started in (the frame without a caller) that the value of `e` in the
+        frame `fr` is computed from: the backward slice of e, continued through the parameters of every frame at the
+        arguments passed; (name node, its frame)"""
+        seen = _seen if _seen is not None else set()
+        for x in backward_slice(e, fr.fn, fr.mod):
+            if id(x) in seen or not (isinstance(x, ast.Name) and isinstance(x.ctx, ast.Load)):
+                continue
+            seen.add(id(x))
+            if fr.parent is None:
+                yield x, fr
+            elif x.id in _all_params(fr.fn):
+                a = fr.argument(x.id)
+                if a is not None:
+                    yield from self.root_names(a, fr.parent, seen)
+
+    def reached(self, fr: Frame, skip: Iterable[ast.AST] = ()) -> Iterator[Frame]:
+        """the frame and every frame the calls in it open (transitively), except into the functions of `skip`"""
+        skip_ids = {id(s) for s in skip}
+        yield fr
+        for x in own_nodes(fr.fn, include_nested=True):
+            if isinstance(x, ast.Call):
+                ch = self.enter(x, fr)
+                if ch is not None and id(ch.fn) not in skip_ids:
+                    yield from self.reached(ch, skip)
